@@ -272,6 +272,11 @@ class Model(object):
             # Recursively apply func to each sample (in the representation the
             # sample collection holds: parameters or function values)
             for idx, item in enumerate(x):
+                # Function values stored in vector form are brought back to
+                # function form (e.g. an image) before they are used
+                if (not x.is_par and x.is_vec
+                    and np.shape(item) != tuple(x.geometry.fun_shape)):
+                    item = x.geometry.vec2fun(item)
                 out[:,idx] = self._apply_func(func,
                                               func_range_geometry,
                                               func_domain_geometry,
